@@ -524,12 +524,15 @@ var mutators = []mutator{
 		c.txs = append(c.txs, c.pay(1, uint32(c.height)+100, c.sp(c.bs.cbOp(2, kTrue))))
 	}},
 	// BIP68 height lock on the fan-out output: met exactly / unmet by one (inert when CSV is off or tx version 1)
-	{"bip68h", []int64{-1, 0, 1, 101}, always, func(c *cand, a int64) {
+	{"bip68h", []int64{-1, 0, 1, 101, 201}, always, func(c *cand, a int64) {
 		s := c.sp(c.bs.fanOp(fanTrue2))
 		age := c.height - c.bs.fanH // blocks since confirmation
 		ver := int32(2)
 		if a == 101 {
 			ver, a = 1, 1
+		}
+		if a == 201 {
+			ver, a = -1, 1 // version 0xffffffff read as unsigned is >= 2: the lock applies
 		}
 		s.seq = uint32(int64(age) + a)
 		c.txs = append(c.txs, c.pay(ver, 0, s))
